@@ -437,6 +437,11 @@ class AsyncHTTP2Connection(AsyncConnectionInterface):
             data = await self._network_stream.read(self.READ_NUM_BYTES, timeout)
             if data == b"":
                 raise RemoteProtocolError("Server disconnected")
+            try:
+                events: list[h2.events.Event] = self._h2_state.receive_data(data)
+            except h2.exceptions.ProtocolError as exc:
+                # The peer sent something that is not valid HTTP/2.
+                raise RemoteProtocolError(exc) from exc
         except Exception as exc:
             # If we get a network error we should:
             #
@@ -449,8 +454,6 @@ class AsyncHTTP2Connection(AsyncConnectionInterface):
             self._read_exception = exc
             self._connection_error = True
             raise exc
-
-        events: list[h2.events.Event] = self._h2_state.receive_data(data)
 
         return events
 
